@@ -543,6 +543,50 @@ def run(prog, rep):
     if not rgc or not rgc[0].args or not isinstance(rgc[0].args[0], ast.Name) or rgc[0].args[0].id not in [a.arg for a in rg.args.args]:
         rep.violation('R5', loc(imod, rg), 'NetworkXGraphImporter._read_from_file_graphml', 'GraphML reader', 'GraphML must be read with networkx read_graphml')
 
+    # every GraphML text the library produces from a networkx graph gets the label markup, not only serialize_graph's
+    for m_, c_, f_ in prog.all_functions():
+        gens_ = [c for c in walk_no_nested(f_) if isinstance(c, ast.Call) and call_name(c) == 'generate_graphml']
+        if not gens_ or not m_.name.startswith('fim.'):
+            continue
+        fq_ = (c_.name + '.' if c_ else '') + f_.name
+        tainted, marked = set(), set()
+        changed_ = True
+        while changed_:
+            changed_ = False
+            for a in sorted([x for x in walk_no_nested(f_) if isinstance(x, ast.Assign) and len(x.targets) == 1 and isinstance(x.targets[0], ast.Name)],
+                            key=lambda x: x.lineno):
+                t_ = a.targets[0].id
+                mentions_t = any(isinstance(x, ast.Name) and x.id in tainted for x in ast.walk(a.value)) or any(any(y is g for y in ast.walk(a.value)) for g in gens_)
+                is_markup = any(isinstance(x, ast.Call) and call_name(x) == 'networkx_to_neo4j' for x in ast.walk(a.value))
+                if mentions_t and is_markup:
+                    if t_ not in marked:
+                        marked.add(t_)
+                        tainted.discard(t_)
+                        changed_ = True
+                elif mentions_t and t_ not in marked and t_ not in tainted:
+                    tainted.add(t_)
+                    changed_ = True
+        # a name re-assigned from the markup counts as marked from then on (straight-line code in these functions)
+        leaks = []
+        for r_ in walk_no_nested(f_):
+            vals = []
+            if isinstance(r_, ast.Return) and r_.value is not None:
+                vals = [r_.value]
+            elif isinstance(r_, ast.Call) and call_name(r_) in ('write', 'writelines') and r_.args:
+                vals = [r_.args[0]]
+            for v_ in vals:
+                if any(isinstance(x, ast.Call) and call_name(x) == 'networkx_to_neo4j' for x in ast.walk(v_)):
+                    continue        # marked up on the way out
+                if any(isinstance(x, ast.Name) and x.id in tainted and x.id not in marked for x in ast.walk(v_)) or \
+                        any(any(y is g for y in ast.walk(v_)) for g in gens_):
+                    leaks.append(r_)
+        rep.instance('R2', f'{fq_}: GraphML text from generate_graphml leaves the function only after the label markup: {not leaks}')
+        for r_ in leaks:
+            rep.violation('R2', loc(m_, r_), fq_, f'{norm(r_, 70)} hands out GraphML without the label markup',
+                          f'{fq_} produces GraphML text with networkx and returns / writes it without passing it through GraphML.networkx_to_neo4j: '
+                          f'no node carries labels= and no edge label=, which the persistent (Neo4j) importer needs (its sibling that writes a file '
+                          f'does apply the markup)')
+
     # GraphML writer options: the reader (read_graphml) is called with defaults, so the writer must not switch on options that
     # change how keys / ids / types are encoded
     UNSAFE_WRITER_OPTS = {'named_key_ids': 'node-scoped and edge-scoped keys of the same property name then share one key id and '
